@@ -926,6 +926,8 @@ fn account_batch(a: &[&str]) -> String {
     let rule = v[8];
     let vault = &v[9..12];
     let (bgiven, bkind, bid, listed, proven) = (v[12], v[13], v[14], v[15], v[16]);
+    // optional: emptiness flag per bucket (0 = holds 5 units, 1 = empty)
+    let empty: Vec<i64> = if v.len() >= 20 { v[17..20].to_vec() } else { vec![0, 0, 0] };
     let other_fungible = {
         let mut b = [3u8; NodeId::LENGTH];
         b[0] = EntityType::GlobalFungibleResourceManager as u8;
@@ -979,6 +981,8 @@ fn account_batch(a: &[&str]) -> String {
     let mut buckets = vec![];
     for j in 0..nb {
         api.outer_objects.insert(mk(50 + j as u8), res(bres[j]).into());
+        let amount = if empty[j] == 1 { Decimal::ZERO } else { Decimal::from(5u32) };
+        api.per_node.insert((mk(50 + j as u8), BUCKET_GET_AMOUNT_IDENT.to_string()), scrypto_encode(&amount).unwrap());
         buckets.push(Bucket(Own(mk(50 + j as u8))));
     }
     let input: Vec<NodeId> = buckets.iter().map(|b| b.0 .0).collect();
